@@ -1200,14 +1200,19 @@ def oracle_c09(ctx, focus):
 # C10: context independence
 
 STRONG = {
-    "en": ["the cat sleeps here", "we went home today", "nothing else happened there"],
-    "fr": ["nous sommes partis hier", "elle mange très vite", "rien ne change jamais"],
+    "en": ["the cat sleeps here", "we went home today", "nothing else happened there", "it's the dog's bowl"],
+    "fr": ["nous sommes partis hier", "elle mange très vite", "rien ne change jamais", "voici l'appartement rouge",
+           "devant l'immeuble gris clair", "c'est d'accord aujourd'hui"],
     "es": ["nosotros fuimos ayer tarde", "ella come muy rápido", "nada cambia nunca aquí"],
     "pt": ["fomos para casa ontem", "ela come muito depressa", "nada muda nunca aqui"],
-    "it": ["siamo andati via ieri", "lei mangia molto veloce", "niente cambia mai qui"],
+    "it": ["siamo andati via ieri", "lei mangia molto veloce", "niente cambia mai qui", "ecco l'albero dell'amico"],
     "de": ["wir gingen gestern heim", "sie isst sehr schnell", "nichts ändert sich hier"],
     "nl": ["wij gingen gisteren weg", "zij eet heel snel", "niets verandert hier ooit"],
 }
+
+
+# (`un` is a number word, so it cannot be part of a separator of non-number words)
+STRONG_FR_ARTICLE = ["je vois le chat noir", "elle sort du grand magasin", "nous aimons le vin", "il parle du vieux port"]
 
 
 def oracle_c10(ctx, focus):
@@ -1236,6 +1241,18 @@ def oracle_c10(ctx, focus):
                 reqs.append("text\t%s\t%s\t%s" % (lang, th, esc(t)))
             meta.append((a, s, b))
         if lang == "fr":
+            # separators that contain an article two or three words before their end: the property allows them (ordinary,
+            # non-number, non-linking words); the `neuf` heuristic looks across the full stop (known finding)
+            for _ in range(120 if ctx.tier != "thorough" else 2000):
+                a = sentence(rng, lang, bank + small_bank, extra=extra)
+                b = rng.choice(["neuf chats dorment", "neuf personnes attendent", "Neuf jours plus tard", "neuf"]) if rng.chance(2, 3) else sentence(rng, lang, bank + small_bank, extra=extra)
+                if not a[-1].isalnum() or not b[0].isalnum():
+                    continue
+                s = " " + rng.choice(STRONG_FR_ARTICLE) + ". "
+                th = rng.choice(thrs)
+                for t in (a + s + b, a, b):
+                    reqs.append("text\t%s\t%s\t%s" % (lang, th, esc(t)))
+                meta.append((a, s, b))
             # structured family around the ambiguous `neuf` (new / nine): a determiner two or three words before it
             # makes the annotation pass probe its neighbours; A and B each carry one such context.
             ctxs = []
@@ -1259,7 +1276,11 @@ def oracle_c10(ctx, focus):
             n += 3
             whole, ra, rb = (unesc(outs[3 * i + j]) for j in range(3))
             if whole != ra + s + rb:
-                failures.append(fail(a + s + b, whole, ra + s + rb, reqs[3 * i:3 * i + 3], lang=lang, what="context"))
+                kind = "context"
+                if lang == "fr" and s.strip(" .") in STRONG_FR_ARTICLE and b.lower().startswith("neuf") and whole.startswith(ra + s) \
+                        and whole[len(ra + s):].lower().startswith("neuf") and not rb.lower().startswith("neuf"):
+                    kind = "context-neuf-after-article"      # B's leading `neuf` read as the adjective because of an article in S
+                failures.append(fail(a + s + b, whole, ra + s + rb, reqs[3 * i:3 * i + 3], lang=lang, what=kind))
             distinct.add((lang, ra, rb))
         # punctuation always keeps two numbers apart
         puncts = [", ", ". ", "; ", ": ", "! ", "? ", " / ", " (", ") ", "\" ", ",", ".", ";", "!", "?", " , ", " . ", "...", " … ", "/", "(", ": - ", ".-"]
